@@ -23,6 +23,7 @@ ADD, MODIFY, MODIFY_STRICT, DELETE, DELETE_STRICT = range(5)
 SEND_FLOW_REM, CHECK_OVERLAP, EMERG = 1, 2, 4
 NONE = 0xffff
 CONTROLLER = 0xfffd
+P_IN_PORT, P_FLOOD, P_ALL, P_LOCAL = 0xfff8, 0xfffb, 0xfffc, 0xfffe
 ALLF = FLAG_FIELDS
 
 # ------------------------------------------------------------------ bytes in (independent of POX's pack)
@@ -98,7 +99,9 @@ def expected_emits(acts, in_port, ln):
     out = []
     for a in acts:
         if a[0] == 0 and 1 <= a[1] <= 4 and a[1] != in_port: out.append([a[1], ln])
-        elif a[0] == 0 and a[1] == CONTROLLER: pass                  # stored and announced by a packet-in, nothing on a port
+        elif a[0] == 0 and a[1] in (P_FLOOD, P_ALL): out += [[q, ln] for q in (1, 2, 3, 4) if q != in_port]
+        elif a[0] == 0 and a[1] == P_IN_PORT: out.append([in_port, ln])
+        elif a[0] == 0: pass                                         # CONTROLLER: stored + packet-in; port 0, LOCAL, the ingress port: nothing
         elif a[0] == 1 and a[1] != 3: raise ValueError("action outside the buffer alphabet")
     return out
 
@@ -234,6 +237,10 @@ class SpecTable:
     def hard_exp(self, f): return f["hard"] != 0 and f["t0"] + f["hard"] * 1000 < self.now
     def step(self, op, ph=None, ln=None):
         k = op["op"]
+        if k == "batch":                                     # several flow-mods in one read: one after the other
+            out = []
+            for sub in op["ops"]: out += self.step(sub)
+            return out
         if k == "fm":
             out = self.command(op)
             if op["cmd"] <= DELETE_STRICT and op.get("buf") is not None: out = out + self.apply_buffer(op["buf"], op["acts"])
@@ -284,12 +291,16 @@ M_DST2 = rec(but(DL_DST), dl_dst=MAC2)
 M_DST16 = rec(but(DL_TYPE), dc=16, dl_type=0x0800, nw_dst=0x0a020000)          # overlaps M_NET8 without containment
 M_NET8_O = rec(but(DL_TYPE), sc=24, dl_type=0x0800, nw_src=0x0b000000)         # disjoint from M_NET8
 MATCHES = [M_ALL, M_INPORT1, M_IP, M_NET8, M_TCP80, M_NET16_P1, M_EXACT, M_ARP, M_DST2, M_IP_B, M_DST16, M_NET8_O]
-BUF_ACTS = [0, 1, 2, 3, 4, 6, 7, 8]                     # indices of ACTS usable in a flow-mod that names a buffer (see expected_emits)
+BUF_ACTS = [0, 1, 2, 3, 4, 6, 7, 8, 9, 10, 11, 12, 13]                     # indices of ACTS usable in a flow-mod that names a buffer (see expected_emits)
 PRIOS = [10, 100, 0xffff]
+RARE_PRIOS = [0, 1, 32767, 32768, 65534]                                     # signed/unsigned boundaries, falsy 0
+RARE_COOKIES = [0, 1, 2 ** 63, 2 ** 64 - 1]
+RARE_PORTS = [0, P_IN_PORT, P_FLOOD, P_ALL, CONTROLLER, P_LOCAL, 0xff00]                     # out_port filters: falsy 0 and the virtual ports
 # max_len is 0 on physical ports: ofp_action_output.pack() itself rewrites it to 0 unless the port is CONTROLLER (so a stats reply
 # would change the stored action; noted in the report, outside the property)
 ACTS = [[[0, 2, 0]], [[0, 3, 0]], [[0, 2, 0], [0, 3, 0]], [], [[1, 3, 0], [0, 2, 0]], [[1, 1, 5]], [[0, 4, 0], [0, 2, 0]],
-        [[0, 2, 0], [0, CONTROLLER, 64]], [[0, CONTROLLER, 128], [0, CONTROLLER, 0]]]   # outputs to the controller: stored + packet-in (ACTION)
+        [[0, 2, 0], [0, CONTROLLER, 64]], [[0, CONTROLLER, 128], [0, CONTROLLER, 0]],   # outputs to the controller: stored + packet-in (ACTION)
+        [[0, 0, 0]], [[0, P_FLOOD, 0], [0, 2, 0]], [[0, P_IN_PORT, 0]], [[0, P_ALL, 0]], [[0, P_LOCAL, 0], [0, 3, 0]]]   # port 0 and virtual ports
 
 def fm(cmd, m, prio=100, flags=0, out_port=NONE, acts=None, idle=0, hard=0, cookie=0, buf=None):
     return {"op": "fm", "cmd": cmd, "m": list(m), "cookie": cookie, "idle": idle, "hard": hard, "prio": prio, "out_port": out_port, "flags": flags,
@@ -402,7 +413,10 @@ class C04(Check):
         import pox.lib.packet as pkt
         from pox.lib.addresses import IPAddr, EthAddr
         self.swnet, self.of, self.pkt, self.IPAddr, self.EthAddr = swnet, of, pkt, IPAddr, EthAddr
-        self.c03 = c03.C03(); self.c03.setup()
+        self.c03 = c03.C03()
+        try: self.c03.setup()
+        except Exception:                       # only phdr_of/parse are needed from it; its variant is a cross-check
+            self.c03.pkt, self.c03.IPAddr, self.c03.EthAddr, self.c03.of = pkt, IPAddr, EthAddr, of
         self._frames = None
         self._ecn_case = False
         self.cfg = self.probe_variant()
@@ -414,14 +428,24 @@ class C04(Check):
         strict_mutual = len(last("strict_hostbits_defect")["table"]) == 1
         mask_undefined = len(last("undefined_bits_defect")["table"]) == 0
         stats_unwire = last("stats_unwired_defect")["outs"] == [{"k": "as", "pk": 0, "by": 0, "n": 1}]
-        ecn = {"op": "pkt", "frame": self.frames()[5], "port": 1}
-        tos_dscp = self.impl({"max": 100, "ops": [fm(ADD, M_TOS0, 100, cookie=1), ecn]})["steps"][-1]["table"][0][10] == 1   # the packet hit
-        # + arpLow8, prereqExact, exactSig (C03, off the source) + tosDscp (D36, probed)
-        return [strict_mutual, mask_undefined, stats_unwire] + list(self.c03.variant) + [tos_dscp]
+        fr = self.frames()
+        def hit(flow, frame, port):      # does `frame` hit `flow`?
+            return self.impl({"max": 100, "ops": [fm(ADD, flow, 100, cookie=1), {"op": "pkt", "frame": frame, "port": port}]})["steps"][-1]["table"][0][10] == 1
+        tos_dscp = hit(M_TOS0, fr[5], 1)                                                    # D36: ECN-marked frame against nw_tos=0
+        arp_low8 = hit(M_ARP_REQ, fr[6], 3)                                                 # D37: ARP opcode 257 against nw_proto=1
+        prereq_exact = len(last("wildcarded_prereq")["table"]) == 1                         # D38: the raw-IP match-all gets replaced
+        exact_sig = last("exact_rank_defect")["table"][0][4] == 1                           # D26: the exact ARP flow stands first
+        cfg = [strict_mutual, mask_undefined, stats_unwire, arp_low8, prereq_exact, exact_sig, tos_dscp]
+        # cross-check only: what C03's harness decided for the same tree (never an abort)
+        try: self.c03_says = list(self.c03.variant)
+        except Exception as e: self.c03_says = "unavailable: %s" % type(e).__name__
+        return cfg
 
     def extra_evidence(self):
         return {"code_variant": dict(zip(["C04-1 strictMutual", "C04-2 maskUndefined", "C04-3 statsUnwire", "D37 arpLow8", "D38 prereqExact",
-                                          "D26 exactSig", "D36 tosDscp"], self.cfg))}
+                                          "D26 exactSig", "D36 tosDscp"], self.cfg)),
+                "code_variant_decided_by": "behaviour of the real switch on witness inputs",
+                "c03_variant_cross_check": {"c03": self.c03_says, "agrees": (self.c03_says[:3] == self.cfg[3:6]) if isinstance(self.c03_says, list) else None}}
 
     # ---------------------------------------------------------------- frames (real packet library)
     def frames(self):
@@ -454,6 +478,17 @@ class C04(Check):
         return ph
 
     # ---------------------------------------------------------------- real code
+    def match_view(self, m):
+        """a real ofp_match through its public attributes only: the wildcard word and the attribute views (wildcarded -> 0)"""
+        out = [m.wildcards]
+        for name in ("in_port", "dl_src", "dl_dst", "dl_vlan", "dl_vlan_pcp", "dl_type", "nw_tos", "nw_proto", "nw_src", "nw_dst", "tp_src", "tp_dst"):
+            v = getattr(m, name)
+            if v is None: out.append(0)
+            elif name in ("dl_src", "dl_dst"): out.append(int.from_bytes(v.toRaw(), "big"))
+            elif name in ("nw_src", "nw_dst"): out.append(self.IPAddr(v).toUnsigned())
+            else: out.append(int(v))
+        return out
+
     def entry_view(self, e):
         of = self.of
         acts = []
@@ -463,34 +498,43 @@ class C04(Check):
             else: acts.append([1, a.type, 0])
         ms = lambda t: int(t * 1000)
         assert ms(e.created) == e.created * 1000 and ms(e.last_touched) == e.last_touched * 1000
-        return [e.priority, e.effective_priority, self.c03.raw_of(e.match), acts, e.cookie, e.flags, e.idle_timeout, e.hard_timeout,
+        return [e.priority, e.effective_priority, self.match_view(e.match), acts, e.cookie, e.flags, e.idle_timeout, e.hard_timeout,
                 ms(e.created), ms(e.last_touched), e.packet_count, e.byte_count]
+
+    def drive(self, node, op, xid, no_data):
+        """apply one event to a switch node"""
+        k = op["op"]
+        if k == "fm": node.w._push_receive_data(flow_mod_bytes(op, xid))
+        elif k == "batch": node.w._push_receive_data(b"".join(flow_mod_bytes(o, xid + i) for i, o in enumerate(op["ops"])))   # ONE read
+        elif k in ("fstats", "astats"): node.w._push_receive_data(stats_req_bytes(op, xid))
+        elif k == "pkt":
+            fr = bytes.fromhex(op["frame"])
+            if no_data: node.sw.rx_packet(self.pkt.ethernet(fr), op["port"])              # the other calling convention
+            else: node.sw.rx_packet(self.pkt.ethernet(fr), op["port"], packet_data=fr)
+        elif k == "adv":
+            assert op["dt"] % 125 == 0
+            poxenv.clock.advance(op["dt"] / 1000.0)
+        elif k == "sweep": node.sw.table.remove_expired_entries()
+        else: raise ValueError(k)
 
     def impl(self, case):
         poxenv.clock.now = T0 / 1000.0
         node = self.swnet.SwitchNode(ports=4, max_entries=case["max"], max_buffers=case.get("bufs", 100))
+        # a second switch in the same process, driven with the same events in reverse order between the steps of the first: the two
+        # must not share anything (class-level caches, module-level memo tables)
+        decoy = self.swnet.SwitchNode(dpid=2, ports=4, max_entries=case["max"], max_buffers=case.get("bufs", 100)) if case.get("decoy") else None
+        decoy_ops = [o for o in reversed(case["ops"]) if o["op"] != "adv"] if decoy else []
         steps = []
         xid = 100
-        for op in case["ops"]:
+        for n_op, op in enumerate(case["ops"]):
+            if decoy and n_op < len(decoy_ops): self.drive(decoy, decoy_ops[n_op], 9000 + n_op, False)
             node.w.send_buf = b""
             node.emitted = []
             before = list(node.sw._packet_buffer)
             st = "ok"
             try:
-                k = op["op"]
-                if k == "fm":
-                    xid += 1; node.w._push_receive_data(flow_mod_bytes(op, xid))
-                elif k in ("fstats", "astats"):
-                    xid += 1; node.w._push_receive_data(stats_req_bytes(op, xid))
-                elif k == "pkt":
-                    fr = bytes.fromhex(op["frame"])
-                    node.sw.rx_packet(self.pkt.ethernet(fr), op["port"], packet_data=fr)
-                elif k == "adv":
-                    assert op["dt"] % 125 == 0
-                    poxenv.clock.advance(op["dt"] / 1000.0)
-                elif k == "sweep":
-                    node.sw.table.remove_expired_entries()
-                else: raise ValueError(k)
+                xid += 10
+                self.drive(node, op, xid, case.get("no_data", False))
             except Exception as e:
                 st = "raise:" + type(e).__name__
                 node.w.receive_buf = b""
@@ -515,8 +559,19 @@ class C04(Check):
         for op in case["ops"]:
             if op["op"] == "pkt":
                 ops.append({"op": "pkt", "phdr": self.phdr(op["frame"]), "port": op["port"], "len": len(op["frame"]) // 2})
+            elif op["op"] == "batch": ops += op["ops"]           # the model takes the messages of one read one after the other
             else: ops.append(op)
         return ops
+
+    def regroup(self, case, steps, tabkey):
+        """fold the model's / Lean Spec's steps of a batch into one: messages concatenated, state after the last"""
+        out, i = [], 0
+        for op in case["ops"]:
+            n = len(op["ops"]) if op["op"] == "batch" else 1
+            grp = steps[i:i + n]; i += n
+            if n == 0: out.append({"outs": [], tabkey: out[-1][tabkey] if out else [], "pool": out[-1]["pool"] if out else []}); continue
+            out.append(dict(grp[-1], outs=[o for g in grp for o in g["outs"]]))
+        return out
 
     def model_request(self, case):
         return {"now": T0, "max": case["max"], "bufs": case.get("bufs", 100), "cfg": self.cfg, "ops": self.model_ops(case)}
@@ -534,7 +589,7 @@ class C04(Check):
         if "error" in resp: return resp
         # a release is observed on the real switch through what it emits: translate the model's (frame, actions) accordingly
         model = [dict(st, outs=[rel_view(o) if o["k"] == "rel" else o for o in st["outs"]]) for st in resp["model"]]
-        return {"model": model, "spec": resp["spec"]}
+        return {"model": self.regroup(case, model, "table"), "spec": self.regroup(case, resp["spec"], "flows")}
 
     def impl_view(self, case, obs):
         # left: the real code's observables (compared with the Lean model); right: the Python transcription of the standard
@@ -553,8 +608,8 @@ class C04(Check):
             if len(got) != len(want):
                 return n, "%s: table has %d entries, specification %d" % (where, len(got), len(want))
             for i, (g, w) in enumerate(zip(got, want)):
-                if g[0] != w[0] or g[2][1:] != w[2][1:] or g[3:] != w[3:]:
-                    return n, "%s: entry %d differs from the specification's (prio/fields/actions/cookie/flags/timeouts/clocks/counters)" % (where, i)
+                if g[0] != w[0] or not spec_identical(g[2], w[2]) or g[3:] != w[3:]:
+                    return n, "%s: entry %d differs from the specification's (prio/match/actions/cookie/flags/timeouts/clocks/counters)" % (where, i)
             eff = [g[1] for g in got]
             if any(a < b for a, b in zip(eff, eff[1:])): return n, "%s: table not sorted by effective priority" % where
             if s["pool"] != sp["pool"]: return n, "%s: stored buffers %s, specification %s" % (where, s["pool"], sp["pool"])
